@@ -196,6 +196,13 @@ def check_open(path, i, nfiles, ref, case, tags, opener=None):
                         bad("exception", f"file {i}: reading {feat}: "
                             f"{type(e).__name__}: {e}",
                             exc=type(e).__name__)
+                    else:
+                        # listed as available although no usable basin
+                        # provides it (and indeed it cannot be read)
+                        bad("unavailable-feature-listed",
+                            f"file {i}: '{feat}' in ds is True but no "
+                            f"usable basin provides it (reading raises "
+                            f"{type(e).__name__})")
                     continue
                 if j in got_ref:
                     if not offered:
@@ -528,6 +535,21 @@ def _remote_case(args):
                             usable=lambda a, b: False)
             with fakehttp.installed(host):
                 out += check_open(paths[0], 0, 2, ref, case, tags)
+        elif variant in ("remote-unreachable-listed",
+                         "remote-unreachable-listed-chain"):
+            # the unreachable definition names its features explicitly; in
+            # the chain variant a file basin stands in front of it
+            chain = variant.endswith("chain")
+            edges = [(0, 1), (1, 2)] if chain else [(0, 1)]
+            rem = (1, 2) if chain else (0, 1)
+            nf = 3 if chain else 2
+            paths = write_graph(d, nf, edges, remote_host={rem},
+                                features_restrict={rem})
+            ref = reference(nf, edges, ["same"] * nf, (),
+                            usable=lambda a, b: (a, b) != rem)
+            with fakehttp.installed(host):
+                for i in range(nf - 1):
+                    out += check_open(paths[i], i, nf, ref, case, tags)
     except BaseException as e:
         out.append(violation(CORE, "exception", case,
                              f"{type(e).__name__}: {e}",
@@ -573,6 +595,7 @@ def run(ctx):
                                      if sh not in BIG_SHAPES])
     res += par.pmap(_remote_case, [(v, scratch) for v in (
         "remote-chain", "http-open", "remote-unreachable",
+        "remote-unreachable-listed", "remote-unreachable-listed-chain",
         "internal-behind-file", "internal-http", "internal-behind-remote",
         "remote-type-local-path", "internal-type-local-path",
         "old-style-definition")])
